@@ -270,6 +270,8 @@ def run(res, tier, only_case=None):
             long_messages(res, plain, bund, wd, oc)
         if oc is None or oc.get("kind") == "file":
             file_level(res, tier, rng, wd, oc)
+    if only_case is None or only_case.get("case", {}).get("kind") == "api":
+        api_level(res, tier, rng, wd, only_case.get("case") if only_case else None)
     res.exhaustive = False
     vlib.shutil.rmtree(wd, ignore_errors=True)
 
@@ -407,6 +409,48 @@ def file_level(res, tier, rng, wd, oc=None):
                           % (" ".join(opts), len(data), outs), case)
     if inputs:
         res.sample({"case": "zck %s on %d bytes in both builds, 4 cross reads" % (" ".join(inputs[-1][2]), len(inputs[-1][1]))})
+
+
+def api_level(res, tier, rng, wd, oc=None):
+    """writer + reader through the library API in both builds, every (overall, chunk) checksum type pair - SHA-1 cannot be
+    selected with the zck tool -: same result line in both builds, and the content comes back (a backend that damages the
+    buffers it is given shows here, not in the digests)"""
+    exe = {v: vlib.ensure_harness("zh_c01", v) for v in ("plain", "bundled")}
+    cases = []
+    if oc:
+        cases = [(bytes.fromhex(oc["content_hex"]), oc["line"])]
+    else:
+        for ht in range(4):
+            for cht in range(4):
+                for comp, manual in ((0, 1), (2, 0), (2, 1), (0, 0)):
+                    if tier == "quick" and (ht + cht + comp + manual) % 2 and not (ht == 0 or cht == 0):
+                        continue
+                    D = rng.rbytes(rng.choice([200, 3000])) + b"abcdefgh" * rng.choice([8, 900]) + rng.rbytes(70)
+                    cuts = sorted(set(rng.randrange(1, len(D)) for _ in range(4))) + [len(D)]
+                    ops, prev = [], 0
+                    for c in cuts:
+                        ops.append("W" + D[prev:c].hex())
+                        if manual and rng.random() < 0.5:
+                            ops.append("E")
+                        prev = c
+                    cases.append((D, "%d -1 %d 0 0 %d %d 0 - 0 %s %s" % (comp, manual, ht, cht, ",".join(ops), rng.choice(["64", "4096", "100,1"]))))
+    lines = [c[1] for c in cases]
+    outs = {}
+    for v in ("plain", "bundled"):
+        outs[v], _ = vlib.run_cases_resilient(exe[v], lines, wd, "api_" + v, env={"ZH_TMP": wd}, timeout=900)
+    for (D, line), a, b in zip(cases, outs["plain"], outs["bundled"]):
+        res.evaluations += 1
+        res.count("api:ht%s:cht%s" % (line.split()[5], line.split()[6]))
+        key = "c18:api:%s:%s" % ("_".join(line.split()[:8]), hashlib.sha256(line.encode()).hexdigest()[:10])
+        case = {"kind": "api", "line": line, "content_hex": D.hex(), "openssl_build": a[-200:], "bundled_build": b[-200:]}
+        res.nontrivial.add(key)
+        want = "content=%s/%d" % (hashlib.sha256(D).hexdigest(), len(D))
+        if a != b:
+            res.violation("oracle", key, "writer+reader through the API (comp %s, manual %s, overall type %s, chunk type %s) give different results in the two builds: "
+                          "OpenSSL %s | bundled %s" % (line.split()[0], line.split()[2], line.split()[5], line.split()[6], a[-120:], b[-120:]), case)
+        elif want not in b or "close=1" not in b:
+            res.violation("oracle", key, "writer+reader through the API (overall type %s, chunk type %s): the content does not come back in either build: %s"
+                          % (line.split()[5], line.split()[6], b[-160:]), case)
 
 
 def search(res, tier):
